@@ -14,7 +14,7 @@ class BitArray:
     def __init__(self, data: np.ndarray, bit_stride: int, shape: tuple, offset: int = 0):
         self._data = data
         self._bit_stride = self._dtype(bit_stride)
-        self._mask = self._dtype(2 ** bit_stride - 1)
+        self._mask = self._dtype(2 ** int(bit_stride) - 1)
         self._shape = shape
         self._offset = self._dtype(offset)
         self._n_entries_per_register = self._register_size // self._bit_stride
